@@ -72,7 +72,7 @@ ResetRule(e) ==
 Step(e) ==
   LET s == SilentRule(e)
       m == IF s # "none" THEN s ELSE IF e.ev = "read" THEN ReadRule(e) ELSE ResetRule(e) IN
-  /\ bad' = IF m = "none" THEN bad ELSE Append(bad, <<i, IF hi THEN "multibyte-doc:" \o m ELSE m>>)
+  /\ bad' = IF m = "none" \/ Len(bad) >= 5000 THEN bad ELSE Append(bad, <<i, IF hi THEN "multibyte-doc:" \o m ELSE m>>)
   /\ st' = [cursor |-> e.cur, length |-> e.len, buflen |-> e.blen, bufSize |-> e.bs, offset |-> e.off, filled |-> e.fil]
   /\ adj' = adj + (st.length - e.plen)
   /\ rpos' = IF e.ev = "read" THEN rpos + e.n ELSE rpos
